@@ -21,7 +21,7 @@ def C07(ctx):
                 "single|chain) counted only if the seek succeeded and >=1 sample run was compared bit-exactly with the linear decode")
     ctx.assumptions = TRUST_COMMON + ["reference = linear ov_read_float decode on a fresh handle over the same bytes, itself "
                                       "checked for contiguity (tell == running count, bitstream index monotone, per-link length == samples encoded)"]
-    ctx.run("san", "vfseek", "c07", _n(ctx.tier, 160, 4000))
+    ctx.run("san", "vfseek", "c07", _n(ctx.tier, 800, 6000))
     return ctx.finish(min_evals=2000, min_buckets=40)
 
 
@@ -33,11 +33,68 @@ def C08(ctx):
                 "or an out-of-range rejection whose position and next read were verified undisturbed")
     ctx.assumptions = TRUST_COMMON + ["t == duration exactly is judged for safety only (statement leaves it open)",
                                       "time seeks: |tell - (link start + floor((t - t_start)*rate))| <= 1"]
-    ctx.run("san", "vfseek", "c08", _n(ctx.tier, 150, 3000), gate=("C08",))
+    ctx.run("san", "vfseek", "c08", _n(ctx.tier, 450, 4500), gate=("C08",))
     return ctx.finish(min_evals=5000, min_buckets=40)
 
 
-CHECKS = {"C07": C07, "C08": C08}
+def C09(ctx):
+    ctx.rule = ("case = one chain of k links (k 1..8 quick, up to 40 thorough) made by the real encoder with per-link unique comments, "
+                "random serial-number schemes (sequential, hashed, INT_MIN/INT_MAX/-1, negative), lengths incl. 0 and single-page links, "
+                "4 paging policies; evaluation = one per-link accounting comparison or one audio comparison of a link in the chain vs the "
+                "same link's bytes opened alone; bucket = (k, has zero-length link, has tiny link, first link short|long) with every clause held")
+    ctx.assumptions = TRUST_COMMON + ["intact chains only (damaged chains belong to C03)"]
+    ctx.run("san", "vfmisc", "c09", _n(ctx.tier, 400, 6000))
+    return ctx.finish(min_evals=1000, min_buckets=12)
+
+
+def C10(ctx):
+    ctx.rule = ("case = one encoder-made chain decoded through (A) seekable vorbisfile with full reads = reference, then vorbisfile "
+                "seekable/streaming/seek-callback-fails with 5 (10) random read schedules (1 byte, capped, random, 1-then-full), request "
+                "lengths (1, random, huge) and initial-preload sizes, then the packet API (own ogg_sync/ogg_stream loop, feeds of 1..65536 "
+                "bytes); evaluation = one full alternative decode compared bit-for-bit; bucket = (path, seek mode, schedule, request policy, "
+                "preload, single|chain)")
+    ctx.assumptions = TRUST_COMMON
+    ctx.run("san", "vfmisc", "c10", _n(ctx.tier, 240, 3000))
+    return ctx.finish(min_evals=800, min_buckets=30)
+
+
+def C17(ctx):
+    ctx.rule = ("case = twin handles on one encoder-made stream (1-8 channels, every 9th case 9-255 channels; signals incl. 10x over-range, "
+                "alternating +-1, noise); each step reads the same position as float (twin A) and through ov_read with a random "
+                "(word,signed,endian), buffer length class (<frame, frame, frame+1, random, 1 MiB) and alignment, into an exact-size "
+                "heap buffer with canaries; evaluation = one ov_read call judged sample by sample against exact scale/round/clip/offset/"
+                "byte-order arithmetic; bucket = (word, signed, endian, length class, channel class, misaligned) or a rejected bad request")
+    ctx.assumptions = TRUST_COMMON + ["decoded values far outside +-1 come from 10x over-range input only until crafted streams are added (thorough: vgen)",
+                                      "ties in rounding accept either neighbour"]
+    ctx.run("san", "vfmisc", "c17", _n(ctx.tier, 400, 3000))
+    return ctx.finish(min_evals=3000, min_buckets=40)
+
+
+def C19(ctx):
+    ctx.rule = ("case = one encoder-made chain (mixed channels/rates/short-block sizes); 60 (120) triples of twin handles brought to the same "
+                "state by the same random history (seeks, reads, read-to-end, optional half-rate); A does the plain seek, B the lapped one, C "
+                "supplies what would have been read next at the old position; plus ov_crosslap pairs; evaluation = one judged pair; bucket = "
+                "(seek API, target class, half-rate, old position mid|end, same|different short block, channel classes) with return class, "
+                "tell, bit-identity after min(n_old,n_new) and (when unambiguous) the w^2 cross-fade formula all held")
+    ctx.assumptions = TRUST_COMMON + ["content formula asserted only when the old link is unambiguous, old audio is available without leaving its link and "
+                                      "the primed buffer holds >= the lap length; bounds, tell and identity after the region always asserted",
+                                      "window from the Vorbis I formula, tolerance 4e-6 relative"]
+    ctx.run("san", "vfmisc", "c19", _n(ctx.tier, 120, 2500))
+    return ctx.finish(min_evals=2000, min_buckets=40)
+
+
+def C20(ctx):
+    ctx.rule = ("case = one encoder-made chain; half-rate linear decode vs full-rate (per-link ceil(N/2), totals unchanged), then a random script "
+                "of 150 (300) ops toggling ov_halfrate at arbitrary points among reads and pcm/page/time/raw seeks, every read compared "
+                "bit-for-bit with the half-rate (or full-rate) linear decode at the reported position; then a streaming handle toggled before "
+                "the first read; bucket = (count parity/size class) | (toggle direction) | (seek API, hs, target class, single|chain)")
+    ctx.assumptions = TRUST_COMMON + ["refusal on 64-sample short blocks needs crafted streams (vgen) and is covered only where those are generated",
+                                      "for odd N the position after the last half-rate sample is N+1; not flagged"]
+    ctx.run("san", "vfmisc", "c20", _n(ctx.tier, 400, 4000))
+    return ctx.finish(min_evals=3000, min_buckets=25)
+
+
+CHECKS = {"C07": C07, "C08": C08, "C09": C09, "C10": C10, "C17": C17, "C19": C19, "C20": C20}
 
 _SAN = ("sanitizer findings (ASan, UBSan bounds/null/div-by-zero/pointer-overflow subset, LeakSanitizer), fatal signals and "
         "CPU-budget overruns in the same runs also fail the check")
@@ -52,6 +109,29 @@ META = {
                           "random in-range, boundary and out-of-range targets for all five seek calls from varied prior states; " + _SAN,
             "level_note": "Trusted: libogg, harness page scanner and time arithmetic. t==duration is judged for safety only."},
 }
+META.update({
+    "C09": {"technique": "runtime monitor: chain accounting and per-link differential (link in chain vs link alone), under ASan+UBSan",
+            "level_text": "Held on the executions observed: hundreds to thousands of encoder-made chains (1-40 links) opened seekable; link count, "
+                          "per-link channels/rate/serial/comments/length, totals, and bit-identity of each link's audio with the same bytes decoded alone; " + _SAN,
+            "level_note": "Trusted: libogg, harness muxer; intact chains only; lengths are also compared with the number of samples given to the encoder."},
+    "C10": {"technique": "runtime monitor: three-way bit-exact differential across access paths and read schedules, under ASan+UBSan",
+            "level_text": "Held on the executions observed: each stream decoded through seekable vorbisfile, streaming vorbisfile and the packet API under "
+                          "random short-read schedules (down to 1 byte), request lengths and preloads; outputs memcmp-equal, no hole/error returns; " + _SAN,
+            "level_note": "Trusted: libogg, harness callback source. Reference path is seekable vorbisfile with full reads."},
+    "C17": {"technique": "runtime monitor: twin handles, exact-arithmetic model of scale/round/clip/offset/endianness, canaried exact-size buffers under ASan",
+            "level_text": "Held on the executions observed: every ov_read call judged sample-by-sample against the float twin for all 8 formats, buffer-length "
+                          "classes incl. too small, misaligned buffers, 1-255 channels; bad requests must error without writing or moving; " + _SAN,
+            "level_note": "Trusted: harness arithmetic (ties accept either neighbour). Values far outside +-1 come from 10x over-range input (clipping exercised and counted)."},
+    "C19": {"technique": "runtime monitor: triple-twin differential (plain seek vs lapped seek vs old-position continuation) with window model, under ASan+UBSan",
+            "level_text": "Held on the executions observed: for each lapped seek variant and ov_crosslap, same return class and tell as the plain seek, "
+                          "bit-identity after the lap region, cross-fade formula inside it where the old link is unambiguous; " + _SAN,
+            "level_note": "Trusted: harness window formula (Vorbis I power-cosine), tolerance 4e-6 relative; see rule for when the content clause is asserted."},
+    "C20": {"technique": "runtime monitor: cursor into half-rate/full-rate linear reference decodes across random toggle/seek/read scripts, under ASan+UBSan",
+            "level_text": "Held on the executions observed: ceil(N/2) per link, totals unchanged, +2 per sample, seek landing on the half-rate grid at or below the "
+                          "target, audio bit-identical to the linear half-rate (or, after switching off, full-rate) decode at every read; " + _SAN,
+            "level_note": "Trusted: harness cursor logic. 'Even position' is read relative to the containing link's start (the only reading under which audio at that "
+                          "position exists when a link starts on an odd sample); refusal on 64-sample blocks awaits crafted streams."},
+})
 LEVEL = {"C12": "fault_enumeration"}
 
 
